@@ -242,6 +242,17 @@ def _lemma_one(args):
     return out
 
 
+def _bounded_one(args):
+    idx, tier, seed = args
+    b = _MOD.BOUNDED[idx]
+    tb = time.time()
+    try:
+        res = json.loads(json.dumps(b.run(tier, seed), default=str))  # plain data across the process boundary
+        return dict(res=res, wall_s=round(time.time() - tb, 2))
+    except Exception as e:
+        return dict(error=f"{type(e).__name__}: {e}\n{traceback.format_exc()[-1200:]}", wall_s=round(time.time() - tb, 2))
+
+
 def load_known(pid):
     path = os.path.join(ROOT, "known_findings.jsonl")
     out = []
@@ -281,16 +292,20 @@ def run_property(pid, tier="quick", seed=0, update_baseline=False, jobs=None):
     results, lemma_results = [], []
     tasks = [(i, tier) for i in range(len(contracts))]
     ltasks = [(i, tier) for i in range(len(lemmas))]
-    if jobs > 1 and (len(tasks) + len(ltasks)) > 1:
+    btasks = [(i, tier, seed) for i in range(len(bounded))]
+    if jobs > 1 and (len(tasks) + len(ltasks) + len(btasks)) > 1:
         ctxmp = mp.get_context("fork")
-        with ctxmp.Pool(min(jobs, max(1, len(tasks) + len(ltasks)))) as pool:
+        with ctxmp.Pool(min(jobs, max(1, len(tasks) + len(ltasks) + len(btasks)))) as pool:
+            ab = pool.map_async(_bounded_one, btasks, chunksize=1)  # bounded stand-ins run alongside the proofs
             ar = pool.map_async(_verify_one, tasks, chunksize=1)
             al = pool.map_async(_lemma_one, ltasks, chunksize=1)
             results = ar.get()
             lemma_results = al.get()
+            bounded_results = ab.get()
     else:
         results = [_verify_one(t) for t in tasks]
         lemma_results = [_lemma_one(t) for t in ltasks]
+        bounded_results = [_bounded_one(t) for t in btasks]
 
     lines = []
     violations = []
@@ -354,16 +369,13 @@ def run_property(pid, tier="quick", seed=0, update_baseline=False, jobs=None):
 
     # bounded stand-ins
     bounded_out = []
-    for b in bounded:
-        tb = time.time()
-        try:
-            res = b.run(tier, seed)
-        except Exception as e:
-            faults.append(f"bounded {b.name}: {type(e).__name__}: {e}\n{traceback.format_exc()[-1200:]}")
+    for b, br in zip(bounded, bounded_results):
+        if br.get("error"):
+            faults.append(f"bounded {b.name}: {br['error']}")
             continue
-        res = dict(res)
+        res = dict(br["res"])
         fails = res.pop("failures", [])
-        res.update(name=b.name, bound=b.bound, wall_s=round(time.time() - tb, 2), failures=len(fails))
+        res.update(name=b.name, bound=b.bound, wall_s=br["wall_s"], failures=len(fails))
         bounded_out.append(res)
         seen_k = set()
         for f in fails:
